@@ -159,6 +159,19 @@ def check(run):
     cs = []
     one_case(run, [rand_shell(rng, l, cs, nprim=2, nseg=1 + l % 2, sph=True, exp_hi=10.0) for l in (2, 1, 3)])
     run.count("after the caller modified objects returned by gbasis.spherical")
+    # shells that keep their stored coefficients instead of renormalising the contractions (what from_iodata builds): the diagonal
+    # is the true self-overlap, not 1
+    from gbasis.integrals.overlap import overlap_integral
+    for k in range(2):
+        sp_ = [ShellSpec(k, [0.1, -0.2, 0.3], [1.1, 0.4], [[0.7, 0.2], [0.4, 0.9]], sph=bool(k), unit_norm=False),
+               ShellSpec(1 - k, [0.6, 0.2, 0.0], [0.9], [[0.8]], unit_norm=False)]
+        m_ = run.model.array("overlap " + " ".join(basis_tokens(sp_)))
+        run.case(("ov-not-renormalised", k))
+        run.count("shells that are not renormalised")
+        ex, idx = max_excess(overlap_integral(make_basis(sp_)), m_, TOL)
+        if ex > 0:
+            run.violation(f"overlap_integral of shells that are not renormalised differs from the exact value at {idx}",
+                          {"case": "overlap", "basis": core.describe_basis(sp_), "index": idx, "tolerance": TOL, "signature": {"kind": "overlap"}})
     for l in range(6):
         hi = core.exp_cap(l)
         s1 = ShellSpec(l, [0.0, 0.0, 0.0], [hi, 0.02], [[1.0], [0.5]], sph=(l % 2 == 0))
